@@ -109,6 +109,27 @@ func (f *Fixture) AdvanceLoop(d time.Duration) []time.Time {
 	return ticks
 }
 
+// JumpLoop moves the fake clock by d IN ONE STEP (several ticker periods may pass: the fake ticker keeps one
+// pending tick, stamped with the instant it was due) and returns when every worker's real loop has serviced a
+// tick at the new instant and is quiescent again. If d is shorter than the time to the next tick instant,
+// nothing is waited for.
+func (f *Fixture) JumpLoop(d time.Duration) {
+	f.mustLoop()
+	start := f.Clock.Now()
+	ticks := f.TickInstants(start, d)
+	f.Clock.Advance(d)
+	if len(ticks) == 0 {
+		f.QuiesceAll()
+		return
+	}
+	want := f.Clock.Now().UnixNano()
+	for w := 0; w < f.N; w++ {
+		ww := w
+		spin("late tick", func() bool { return f.Coll.VerifLastTickUnixNano(ww) == want })
+		f.Quiesce(w)
+	}
+}
+
 // EjectLoop posts a sendEarly request to worker w's loop exactly as checkAlloc does and waits for the
 // WaitGroup the loop signals after running sendTracesEarly.
 func (f *Fixture) EjectLoop(w int, bytes int) {
